@@ -4,7 +4,13 @@ import "math/bits"
 
 // RNG is a small deterministic generator (splitmix64 seeding an xoshiro256**
 // state). No global state, no time.
-type RNG struct{ s [4]uint64 }
+type RNG struct {
+	s [4]uint64
+	// LastKey lets generators re-use "the previous key" of this stream
+	// (caches keyed on the wrong thing only show with repeated / special keys).
+	LastKey    [16]byte
+	HasLastKey bool
+}
 
 func splitmix(x *uint64) uint64 {
 	*x += 0x9e3779b97f4a7c15
